@@ -63,6 +63,8 @@ TKilled ==
 
 \* kind "fault09": an execution with an injected I/O error judged for C09 only ("a stream is marked
 \* finished only after all its flushed bytes are in their final place" also on the error paths)
+\* kind "faultloss": the injected fault itself destroys data (a close that reports lost writes): the runtime
+\* must still not return normally without a complete copy; terminating with a diagnostic is all it can do
 TReturned ==
    /\ Is("returned") /\ status = "running"
    /\ (kind = "replay" => (Cur.c = "return_free" /\ ObsState(Rec)))
@@ -71,8 +73,9 @@ TReturned ==
 
 \* die(): abort with a diagnostic; nothing that was flushed may have been deleted
 TAborted ==
-   /\ Is("aborted") /\ status = "running" /\ kind \in {"fault", "fault09"}
+   /\ Is("aborted") /\ status = "running" /\ kind \in {"fault", "fault09", "faultloss"}
    /\ (kind = "fault" => (Rec.diag /\ ObsC10b(Rec)))
+   /\ (kind = "faultloss" => Rec.diag)
    /\ ObsC09a(Rec)
    /\ (kind = "fault09" => ObsC09b(Rec))
    /\ status' = "aborted" /\ UNCHANGED <<sc, pc, obs, json, flushed, fault, copyfail, moveok, kind>>
